@@ -201,6 +201,24 @@ def runLoop (code : Fn → List Stmt) (f : LoopFn) (self other : Bool) (s : CSt)
   let s1 := (exec (sem code) self f.pre 0 [] s).1
   loopIter code f self (sem code .Len [] other s1).2.toInt.toNat (sem code f.start [] other s1).2.toWord s1
 
+/-- One of the four traversals of the inner list (`Range`, `RangeReverse`, `ForEach`, `ForEachReverse`):
+`for e := l.<start>(); e != nil; e = e.<adv>() { callback(e.Value()) }`; `abortable`: the callback's error ends the
+loop and is returned. -/
+structure WalkFn where
+  start : Fn
+  adv : Fn
+  abortable : Bool
+deriving DecidableEq, Repr
+
+/-- The values handed to the callback, at most `fuel` of them, from element `e` on. -/
+def walkSem (code : Fn → List Stmt) (w : WalkFn) (s : CSt) : Nat → Nat → List Nat
+  | 0, _ => []
+  | f + 1, e =>
+    if e = 0 then [] else (semElem code .Value e s).toWord :: walkSem code w s f (semElem code w.adv e s).toWord
+
+def walkAll (code : Fn → List Stmt) (w : WalkFn) (l : Bool) (s : CSt) (fuel : Nat) : List Nat :=
+  walkSem code w s fuel (sem code w.start [] l s).2.toWord
+
 end Hive.DList.IR
 
 namespace Hive.DList
